@@ -134,7 +134,7 @@ def same_dim(a, b):
 
 
 def map1(a, f, dtype=None):
-    return Arr(a.shape, lambda *idx, _a=a: f(_a.elem(*idx)), dtype or a.dtype, a.tag)
+    return Arr(a.shape, lambda *idx, _e=a.elem: f(_e(*idx)), dtype or a.dtype, a.tag)
 
 
 def broadcast2(I, a, b):
@@ -158,20 +158,20 @@ def broadcast2(I, a, b):
                     shape.append(x)
 
             def fix(arr):
-                def f(*idx, _arr=arr):
-                    real = [0 if (isinstance(s, int) and s == 1) else i for i, s in zip(idx, _arr.shape)]
-                    return _arr.elem(*real)
+                def f(*idx, _shape=arr.shape, _e=arr.elem):
+                    real = [0 if (isinstance(s, int) and s == 1) else i for i, s in zip(idx, _shape)]
+                    return _e(*real)
 
                 return f
 
             return tuple(shape), fix(a), fix(b), a.dtype, b.dtype
         hi, lo = (a, b) if a.ndim > b.ndim else (b, a)
         if lo.ndim == 0:
-            f_lo = lambda *idx, _lo=lo: _lo.elem()
+            f_lo = lambda *idx, _e=lo.elem: _e()
         elif lo.ndim == 1 and hi.ndim == 2:
             if same_dim(lo.shape[0], hi.shape[1]) is False and lo.shape[0] != 1:
                 I.raise_(ValueError)
-            f_lo = lambda i, j, _lo=lo: _lo.elem(0 if (isinstance(_lo.shape[0], int) and _lo.shape[0] == 1) else j)
+            f_lo = lambda i, j, _e=lo.elem, _one=(isinstance(lo.shape[0], int) and lo.shape[0] == 1): _e(0 if _one else j)
         else:
             raise Unsupported("broadcast of ranks > 2")
         f_hi = hi.elem
@@ -385,7 +385,7 @@ def getitem(I, a, idx):
             if eq is None and not I.path.branch(Z(idx.shape[0]) == Z(a.shape[0]), f"mask-length@{I.cur_line}"):
                 I.raise_(IndexError)
             m, pos, rank = select_cache(I, idx)
-            out = Arr((mk(m, "int"),) + tuple(a.shape[1:]), lambda j, *rest, _a=a, _p=pos: _a.elem(_p(Z(j)), *rest), a.dtype, a.tag + "[mask]")
+            out = Arr((mk(m, "int"),) + tuple(a.shape[1:]), lambda j, *rest, _e=a.elem, _p=pos: _e(_p(Z(j)), *rest), a.dtype, a.tag + "[mask]")
             if a.fields is not None:
                 out.fields = {k: getitem(I, c, idx) for k, c in a.fields.items()}
             out.sel = (a, idx, pos, rank)
@@ -395,8 +395,8 @@ def getitem(I, a, idx):
             n0 = a.shape[0]
             k = idx.ndim
 
-            def elem(*ii, _a=a, _idx=idx, _k=k, _n0=n0):
-                return _a.elem(norm(_idx.elem(*ii[:_k]), _n0), *ii[_k:])
+            def elem(*ii, _e=a.elem, _ie=idx.elem, _k=k, _n0=n0):
+                return _e(norm(_ie(*ii[:_k]), _n0), *ii[_k:])
 
             return Arr(tuple(idx.shape) + tuple(a.shape[1:]), elem, a.dtype, a.tag + "[idx]")
     raise Unsupported(f"array index {type(idx).__name__} at {I.where()}")
@@ -513,6 +513,8 @@ def setitem(I, a, idx, value):
             a.elem = lambda k, *rest, _o=old, _m=idx: z3.If(_m.elem(k), val_at(*rest) if vk is not None else val_at(), _o(k, *rest))
         return
     if isinstance(idx, Arr) and idx.dtype == "int":
+        if getattr(idx, "flat_of", None) is not None:
+            idx = idx.flat_of  # membership does not depend on the index array's shape
         all_in_range(I, idx, a.shape[0])
         if vk is not None and vk.ndim >= 1:
             raise Unsupported("fancy assignment of an array value")
@@ -552,7 +554,7 @@ def prop(cls, name):
 
 @prop(Arr, "shape")
 def a_shape(I, a):
-    return tuple(a.shape)
+    return tuple(x if isinstance(x, int) else mk(x, "int") for x in a.shape)
 
 
 @prop(Arr, "ndim")
@@ -590,7 +592,9 @@ def a_flatten(I, a, *args, **kw):
         w = a.shape[1]
         if isinstance(w, int) and w > 0:
             n = mk(Z(a.shape[0]) * w, "int") if not isinstance(a.shape[0], int) else a.shape[0] * w
-            return Arr((n,), lambda t, _a=a, _w=w: _a.elem(Z(t) / _w, Z(t) % _w), a.dtype, a.tag + ".flat")
+            out = Arr((n,), lambda t, _e=a.elem, _w=w: _e(Z(t) / _w, Z(t) % _w), a.dtype, a.tag + ".flat")
+            out.flat_of = Arr(a.shape, a.elem, a.dtype, a.tag)  # same multiset of entries, 2-D indexing
+            return out
     raise Unsupported("flatten with symbolic width")
 
 
@@ -640,9 +644,85 @@ def _unsup(msg):
     raise Unsupported(msg)
 
 
-@method(Arr, "min", "max")
-def a_minmax_method(I, a, axis=None):
-    raise Unsupported("ndarray.min/max method (axis)")
+def axis0_extremum(I, a, is_max):
+    """a.min(axis=0) / a.max(axis=0) of an (n, w) array with concrete w: per column, a bound
+    that is attained (ValueError on n == 0)."""
+    theory.use("T-np.min/max(axis=0): per-column bound attained; ValueError on empty")
+    if a.ndim != 2 or not isinstance(a.shape[1], int):
+        raise Unsupported("axis-0 extremum needs a concrete column count")
+    n = Z(a.shape[0])
+    if not I.path.branch(n > 0, f"np-extremum-nonempty@{I.cur_line}"):
+        I.raise_(ValueError)
+    cache = I.path.ghost.setdefault("axis0", {})
+    key = (id(a), is_max)
+    if key not in cache:
+        vals = []
+        for c in range(a.shape[1]):
+            m = z3.Real(fresh_name("colext")) if a.dtype == "real" else z3.Int(fresh_name("colext"))
+            q = z3.Int(fresh_name("q"))
+            e = a.elem(q, c)
+            I.path.assume(z3.ForAll([q], z3.Implies(z3.And(q >= 0, q < n), (e <= m) if is_max else (e >= m))))
+            w = z3.Int(fresh_name("argext"))
+            I.path.assume(z3.And(w >= 0, w < n, a.elem(w, c) == m))
+            vals.append(m)
+        cache[key] = (vals, a)
+    vals = cache[key][0]
+
+    def elem(j, _v=vals):
+        if isinstance(j, int):
+            return _v[j]
+        out = _v[-1]
+        for k in range(len(_v) - 2, -1, -1):
+            out = z3.If(Z(j) == k, _v[k], out)
+        return out
+
+    return Arr((a.shape[1],), elem, a.dtype, "colext")
+
+
+@method(Arr, "min")
+def a_min_method(I, a, axis=None):
+    if axis == 0:
+        return axis0_extremum(I, a, False)
+    if axis is None:
+        return extremum(I, a, False)
+    raise Unsupported("ndarray.min axis")
+
+
+@method(Arr, "max")
+def a_max_method(I, a, axis=None):
+    if axis == 0:
+        return axis0_extremum(I, a, True)
+    if axis is None:
+        return extremum(I, a, True)
+    raise Unsupported("ndarray.max axis")
+
+
+class _CClass:
+    pass
+
+
+def np_c_getitem(I, idx):
+    """np.c_[a, b, ...] for 1-D arrays of equal length (columns) or 2-D blocks."""
+    parts = list(idx) if isinstance(idx, tuple) else [idx]
+    arrs = [as_arr(I, x) for x in parts]
+    if all(x.ndim == 1 for x in arrs):
+        n = arrs[0].shape[0]
+        for x in arrs[1:]:
+            if same_dim(n, x.shape[0]) is False:
+                I.raise_(ValueError)
+        dt = "real" if any(x.dtype == "real" for x in arrs) else arrs[0].dtype
+        k = len(arrs)
+
+        def elem(i, j, _arrs=arrs):
+            if isinstance(j, int):
+                return _arrs[j].elem(i)
+            out = _arrs[-1].elem(i)
+            for c in range(k - 2, -1, -1):
+                out = z3.If(Z(j) == c, _arrs[c].elem(i), out)
+            return out
+
+        return Arr((n, k), elem, dt, "c_")
+    raise Unsupported("np.c_ of rank > 1 blocks")
 
 
 # ---------------------------------------------------------------------------------- functions
@@ -691,6 +771,8 @@ def _filled(I, args, kw, value, like=False):
     elif len(args) > 1 and not like:
         dt = dtype_kind(args[1])
     shape = tuple(s if isinstance(s, int) else (s.e if isinstance(s, SV) else s) for s in shape)
+    if like and "dtype" in kw and kw["dtype"] is not None:
+        dt = dtype_kind(kw["dtype"])
     term = {"bool": z3.BoolVal(bool(value)), "int": z3.IntVal(int(value)), "real": z3.RealVal(int(value))}[dt]
     return Arr(shape, lambda *idx, _t=term: _t, dt, "filled")
 
@@ -747,7 +829,7 @@ def np_reduce_bool(I, a, is_any, axis=None):
         w = a.shape[1]
         if isinstance(w, int):
             f = z3.Or if is_any else z3.And
-            return Arr((a.shape[0],), lambda i, _a=a: f(*[_a.elem(i, j) for j in range(w)]) if w > 0 else z3.BoolVal(not is_any), "bool", "reduce1")
+            return Arr((a.shape[0],), lambda i, _e=a.elem: f(*[_e(i, j) for j in range(w)]) if w > 0 else z3.BoolVal(not is_any), "bool", "reduce1")
         j = z3.Int(fresh_name("j"))
 
         def elem(i, _a=a, _w=w):
@@ -870,7 +952,7 @@ def np_delete(I, args, kw):
     if is_int_like(idx):
         i = check_index(I, idx, n)
         iz = Z(i)
-        cols = lambda arr: Arr((mk(Z(n) - 1, "int"),) + tuple(arr.shape[1:]), lambda j, *rest, _a=arr: _a.elem(z3.If(Z(j) < iz, Z(j), Z(j) + 1), *rest), arr.dtype, arr.tag + ".del")
+        cols = lambda arr: Arr((mk(Z(n) - 1, "int"),) + tuple(arr.shape[1:]), lambda j, *rest, _e=arr.elem: _e(z3.If(Z(j) < iz, Z(j), Z(j) + 1), *rest), arr.dtype, arr.tag + ".del")
     elif isinstance(idx, Arr) and getattr(idx, "arange", None) is not None:
         lo, hi = idx.arange
         zlo, zhi = Z(lo), Z(hi)
@@ -880,7 +962,7 @@ def np_delete(I, args, kw):
             I.raise_(IndexError)
         if not I.path.branch(zlo >= 0, f"np-delete-nonneg@{I.cur_line}"):
             raise Unsupported("np.delete with a negative arange")
-        cols = lambda arr: Arr((mk(Z(n) - cnt, "int"),) + tuple(arr.shape[1:]), lambda j, *rest, _a=arr: _a.elem(z3.If(Z(j) < zlo, Z(j), Z(j) + cnt), *rest), arr.dtype, arr.tag + ".del")
+        cols = lambda arr: Arr((mk(Z(n) - cnt, "int"),) + tuple(arr.shape[1:]), lambda j, *rest, _e=arr.elem: _e(z3.If(Z(j) < zlo, Z(j), Z(j) + cnt), *rest), arr.dtype, arr.tag + ".del")
     elif isinstance(idx, Arr) and idx.dtype == "int":
         all_in_range(I, idx, n)
         member = z3.Function(fresh_name("deleted"), z3.IntSort(), z3.BoolSort())
@@ -896,7 +978,7 @@ def np_delete(I, args, kw):
         m, pos, rank = select_cache(I, keep)
 
         def cols(arr, _keep=keep, _pos=pos, _rank=rank, _m=m):
-            out = Arr((mk(_m, "int"),) + tuple(arr.shape[1:]), lambda j, *rest, _a=arr: _a.elem(_pos(Z(j)), *rest), arr.dtype, arr.tag + ".del")
+            out = Arr((mk(_m, "int"),) + tuple(arr.shape[1:]), lambda j, *rest, _e=arr.elem: _e(_pos(Z(j)), *rest), arr.dtype, arr.tag + ".del")
             out.sel = (arr, _keep, _pos, _rank)
             return out
     elif isinstance(idx, Arr) and idx.dtype == "bool":
@@ -922,10 +1004,10 @@ def np_vstack(I, args, kw):
             offs.append(I.binop(ast.Add(), offs[-1], x.shape[0] if isinstance(x.shape[0], int) else mk(x.shape[0], "int")))
         dt = "real" if any(x.dtype == "real" for x in items) else items[0].dtype
 
-        def elem(i, j, _items=items, _offs=offs):
-            out = _items[-1].elem(Z(i) - Z(_offs[-2]), j)
-            for k in range(len(_items) - 2, -1, -1):
-                out = z3.If(Z(i) < Z(_offs[k + 1]), _items[k].elem(Z(i) - Z(_offs[k]), j), out)
+        def elem(i, j, _es=[x.elem for x in items], _offs=offs):
+            out = _es[-1](Z(i) - Z(_offs[-2]), j)
+            for k in range(len(_es) - 2, -1, -1):
+                out = z3.If(Z(i) < Z(_offs[k + 1]), _es[k](Z(i) - Z(_offs[k]), j), out)
             return out
 
         total = offs[-1]
